@@ -50,7 +50,7 @@ Definition via_expires (j1 : jar) (m : morsel) (k : key) : jar :=
 
 Definition stage_expiry (j1 : jar) (m : morsel) (now : Z) (k : key) : jar :=
   match m_maxage m with
-  | MA_val dl => expire_cookie j1 (max_age_deadline now dl) k
+  | MA_val dl => expire_cookie j1 (max_age_ticks now dl) k
   | MA_invalid => if invalid_max_age_uses_expires then via_expires j1 m k else j1
   | MA_none => via_expires j1 m k
   end.
@@ -112,8 +112,8 @@ Proof.
     exists e. split; [apply expire_cookie_lookup_same|lia].
   - destruct (m_expires m) as [| |t]; try discriminate. inversion He. subst. rewrite U.
     exists e. split; [apply expire_cookie_lookup_same|lia].
-  - inversion He. subst. exists (max_age_deadline now dl). split; [apply expire_cookie_lookup_same|].
-    unfold max_age_deadline. lia.
+  - inversion He. subst. exists (max_age_ticks now dl). split; [apply expire_cookie_lookup_same|].
+    unfold max_age_ticks, max_age_deadline_gen. apply Z.le_min_l.
 Qed.
 
 Lemma effective_domain_cases u m : wf_host (u_host u) ->
